@@ -713,16 +713,25 @@ Proof.
   { rewrite lookup_insert_ne by done. unfold g1. by rewrite lookup_insert. }
   assert (Lx : <[tx := mk_node CX false ∅]> g1 !! tx = Some (mk_node CX false ∅)) by (by rewrite lookup_insert).
   assert (Lo : ∀ n i, <[tx := mk_node CX false ∅]> g1 !! n = Some i → n ∈ ({[t0; t1; tx]} : gset string) ∧ n_fi i = ∅).
-  { intros n i Hn. apply lookup_insert_Some in Hn as [[<- <-]|[_ Hn]]; [set_solver|]. unfold g1 in Hn.
-    apply lookup_insert_Some in Hn as [[<- <-]|[_ Hn]]; [set_solver|]. unfold g0 in Hn. apply lookup_singleton_Some in Hn as [<- <-]. set_solver. }
-  split; [done|]. split; [done|]. split; [unfold ties; simpl; set_solver|]. split; [done|]. split; [done|]. split; [done|].
+  { intros n i Hn. apply lookup_insert_Some in Hn as [[<- <-]|[_ Hn]].
+    { split; [|done]. rewrite !elem_of_union, !elem_of_singleton. tauto. }
+    unfold g1 in Hn. apply lookup_insert_Some in Hn as [[<- <-]|[_ Hn]].
+    { split; [|done]. rewrite !elem_of_union, !elem_of_singleton. tauto. }
+    unfold g0 in Hn. apply lookup_singleton_Some in Hn as [<- <-]. split; [|done]. rewrite !elem_of_union, !elem_of_singleton. tauto. }
+  assert (Htr : ({[t0; t1; tx]} : gset string) ## rsv).
+  { intros z Hz Hr. rewrite !elem_of_union, !elem_of_singleton in Hz. destruct Hz as [[->| ->]| ->]; [done| |].
+    - apply H1. apply elem_of_union_r, Hr.
+    - apply Hx. apply elem_of_union_r, Hr. }
+  split; [done|]. split; [done|]. split; [exact Htr|]. split; [done|]. split; [done|]. split; [done|].
   split.
-  - unfold gst, ties. simpl. split; [|split; [|split]]; try set_solver.
-    + intros n i f Hn Hf. destruct (Lo n i Hn) as [_ E]. rewrite E in Hf. set_solver.
+  - unfold gst, ties. simpl. split; [|split; [|split]].
+    + intros n i f Hn Hf. destruct (Lo n i Hn) as [_ E]. rewrite E in Hf. by apply elem_of_empty in Hf.
     + intros x Hx'. apply elem_of_dom. rewrite !elem_of_union, !elem_of_singleton in Hx'. destruct Hx' as [[->| ->]| ->]; eauto.
+    + intros z _ Hz. by apply elem_of_empty in Hz.
+    + intros z Hz _. by apply elem_of_empty in Hz.
   - split; eexists; eauto.
   - eexists; eauto.
-  - intros n Hn _ i Hi. destruct (Lo n i Hi) as [Hin _]. exfalso. set_solver.
+  - intros n Hn _ i Hi. destruct (Lo n i Hi) as [Hin _]. exfalso. by apply (Htr n).
   - intros n d Hin. by apply elem_of_nil in Hin.
   - constructor.
 Qed.
